@@ -150,6 +150,11 @@ where
 	let mut context = w.get_private_context(keychain_mask, sl.id.as_bytes())?;
 	check_ttl(w, &sl)?;
 	if sl.state == SlateState::Invoice2 {
+		// An Invoice2 reply is finalized by the invoice's issuer. A context for which a payment
+		// proof was requested is a sender's: finalizing it here would skip the proof check.
+		if context.payment_proof_derivation_index.is_some() {
+			return Err(Error::SlateState);
+		}
 		// Add our contribution to the offset
 		sl.adjust_offset(&w.keychain(keychain_mask)?, &context)?;
 
